@@ -371,6 +371,9 @@ pub enum Extern {
     Bits,
     Order(bool),
     Opaque(String),
+    /// `::ext::U8Keyed<V>`: a substitute target of known shape - a map from `u8` to `V` (what `BTreeMap<u8, V>` is
+    /// on the wire). Lets the shape check see whether a substitute rule hands over the RIGHT argument.
+    U8Keyed,
 }
 
 pub fn extern_table(s: &SettingsSpec) -> HashMap<String, Extern> {
@@ -425,6 +428,7 @@ pub fn extern_table(s: &SettingsSpec) -> HashMap<String, Extern> {
         let ext = match (from.starts_with("bitvec::order::"), from_last) {
             (true, "Lsb0") => Extern::Order(false),
             (true, "Msb0") => Extern::Order(true),
+            _ if key == "::ext::U8Keyed" => Extern::U8Keyed,
             _ => Extern::Opaque(squash(from).split('<').next().unwrap_or("").to_string()),
         };
         t.insert(key, ext);
@@ -781,6 +785,31 @@ impl<'a> RustGraph<'a> {
                 Extern::SeqWrapper => {
                     want(1)?;
                     Node::Composite(vec![(None, seq_of(arg(0)))])
+                }
+                Extern::U8Keyed => {
+                    want(1)?;
+                    let v = arg(0);
+                    let kk = "#prim#u8".to_string();
+                    let existing = self.memo.borrow().get(&kk).copied();
+                    let k = match existing {
+                        Some(i) => i,
+                        None => {
+                            let k = self.alloc(kk);
+                            self.set(k, Node::Prim(TypeDefPrimitive::U8));
+                            k
+                        }
+                    };
+                    let tk = format!("#tuple#{k},{v}");
+                    let existing = self.memo.borrow().get(&tk).copied();
+                    let t = match existing {
+                        Some(i) => i,
+                        None => {
+                            let t = self.alloc(tk);
+                            self.set(t, Node::Tuple(vec![k, v]));
+                            t
+                        }
+                    };
+                    Node::Composite(vec![(None, seq_of(t))])
                 }
                 Extern::Range => {
                     want(1)?;
